@@ -146,6 +146,13 @@ def is_string_continuation(events):
     return not events[0].func_qualifier & DgbFuncQual.DBG_FUNC_START.value
 
 
+def string_records(events):
+    """
+    The records of the string itself, other records of the thread can be logged between them.
+    """
+    return [e for e in events if e.eventid == events[0].eventid]
+
+
 def handle_trace_string_global(parser, events):
     if is_string_continuation(events):
         return None
@@ -155,6 +162,9 @@ def handle_trace_string_global(parser, events):
     lookup_events = []
     for event in events:
         lookup_events.append(event)
+        if event.eventid != events[0].eventid:
+            # Another record of the thread that was logged between the records of the string.
+            continue
         if event.func_qualifier & DgbFuncQual.DBG_FUNC_START.value:
             debugid = event.values[0]
             str_id = event.values[1]
@@ -194,7 +204,7 @@ def handle_trace_string_proc_exit(parser, events):
 def handle_trace_string_threadname(parser, events):
     if is_string_continuation(events):
         return None
-    name = b''.join([e.data for e in events]).replace(b'\x00', b'').decode()
+    name = b''.join([e.data for e in string_records(events)]).replace(b'\x00', b'').decode()
     event = TraceStringThreadname(events, name)
     parser.tids_names[events[0].tid] = event.name
     return event
@@ -203,7 +213,7 @@ def handle_trace_string_threadname(parser, events):
 def handle_trace_string_threadname_prev(parser, events):
     if is_string_continuation(events):
         return None
-    name = b''.join([e.data for e in events]).replace(b'\x00', b'').decode()
+    name = b''.join([e.data for e in string_records(events)]).replace(b'\x00', b'').decode()
     event = TraceStringThreadnamePrev(events, name)
     parser.tids_names[events[0].tid] = event.name
     return event
